@@ -77,7 +77,7 @@ def _eval_lca(st):
     return {"sql": sql, "bad": "columns", "obs": {"pairs": sorted(got)}, "expected": sorted(exp), "delta": {"missing": sorted(exp - got), "extra": sorted(got - exp)}, "K": K}
 
 
-def ast_info(st):
+def ast_info(st, K=None):
     """structural predicates over the AST used to attribute a disagreement to a triaged finding class"""
     info = {"dup_names_in_setop": False, "star_over_sub_and_base": False, "star_beside_named_over_star_sub": False,
             "join_inside_derived_under_join": False, "unq_multi_levels": 0, "star_over_relations_sharing_a_name": False}
@@ -104,8 +104,11 @@ def ast_info(st):
                 info["join_inside_derived_under_join"] = True
             if len(rels) > 1 and any(_has_unq(it["e"]) for it in sel["items"]):
                 info["unq_multi_levels"] += 1
-            if "star" in kinds and len(rels) > 1:
+            if "star" in kinds:
+                # names the star expands to (derived output lists, known base tables) next to the explicit items' names
                 exposed = [n for r in rels if r["k"] == "derived" for n in (sqlgen.out_names(r["q"]) or []) if n]
+                exposed += [n for r in rels if r["k"] == "base" for n in (K or {}).get(refsem.fq(r["t"], K and "main"), [])]
+                exposed += [n for n in names_of(sel) if n]
                 if len(exposed) != len(set(exposed)):
                     info["star_over_relations_sharing_a_name"] = True
 
@@ -130,7 +133,7 @@ def classify(st, dialect, res):
         return None
     d = res["delta"]
     miss, extra = d["missing"], d["extra"]
-    info = ast_info(st)
+    info = ast_info(st, res.get("K"))
     has_lit = "item:lit" in f
     if dialect == "tsql" and ("kind:update" in f or "kind:merge" in f) and miss and not extra and not res["obs"]["pairs"]:
         return "F-C09-tsql-update-merge-without-column-lineage"
@@ -141,8 +144,10 @@ def classify(st, dialect, res):
         return "F-C02-alias-inside-parenthesised-join-not-recognised"
     if "kind:update" in f and not st.get("from") and miss and extra and all("." not in e[0] for e in extra):
         return "F-C02-update-without-from-source-column-has-no-owner"
-    if info["star_over_relations_sharing_a_name"] and miss and not extra:
+    if info["star_over_relations_sharing_a_name"] and miss and (not extra or res.get("K")):
         return "F-C11-star-over-tables-sharing-a-column-name"
+    if info["join_inside_derived_under_join"] and "item:star" in f and extra and not miss and all(e[0] == "<none>" for e in extra):
+        return "F-C02-join-inside-derived-table-leaks-into-outer-scope"  # the leaked table's wildcard is left without a target
     if info["dup_names_in_setop"]:
         return "F-C02-duplicate-output-names-in-set-operation"
     if info["star_beside_named_over_star_sub"]:
@@ -155,11 +160,6 @@ def classify(st, dialect, res):
         return "F-C02-join-inside-derived-table-leaks-into-outer-scope"
     if info["unq_multi_levels"] >= 2 and miss and not extra and any(p[0].startswith("?") for p in res["obs"]["pairs"]):
         return "F-C04-unresolved-columns-of-equal-name-merge"
-    if miss and not extra and all(m[0].startswith("?") for m in miss) and info["unq_multi_levels"] >= 1:
-        # the unresolved column's name is also read qualified elsewhere in the statement: late resolution guesses that table
-        names = {m[0][1:].split("[")[0] for m in miss}
-        if any(p[0].endswith("." + n) for n in names for p in res["obs"]["pairs"]):
-            return "F-C02-unresolved-column-guessed-from-columns-seen-elsewhere"
     if miss and not extra and "item:star" in f and "setop" in f and "rel:derived" in f:
         return "F-C02-named-column-through-star-subquery"  # with metadata: only the first branch of the star union is expanded
     if has_lit and "setop" in f:
